@@ -320,13 +320,13 @@ func shortName(fn *ssa.Function) string {
 			t = pt.Elem()
 		}
 		if n, ok := t.(*types.Named); ok {
-			return n.Obj().Name() + "." + fn.Name()
+			return n.Obj().Name() + "." + load.SimpleName(fn)
 		}
 	}
 	if fn.Pkg != nil {
-		return fn.Pkg.Pkg.Name() + "." + fn.Name()
+		return fn.Pkg.Pkg.Name() + "." + load.SimpleName(fn)
 	}
-	return fn.Name()
+	return load.SimpleName(fn)
 }
 
 func typeShort(t types.Type) string {
